@@ -207,7 +207,7 @@ func init() {
 		Level:    "proof",
 		WasmLoad: true,
 		Funcs: []string{"tcell.paletteColor", "tcell.(*wScreen).drawCell", "tcell.(*wScreen).clearScreen", "tcell.(*wScreen).draw", "tcell.(*wScreen).postEvent", "tcell.(*wScreen).onMouseEvent", "tcell.(*wScreen).onPaste", "tcell.(*wScreen).onFocus", "tcell.(*wScreen).Show", "tcell.(*wScreen).Resume", "tcell.(*wScreen).enableMouse", "tcell.(*wScreen).enablePasting"},
-		Custom:   []func(*PropRun){c19Balance, c19KeyTable, c19InitHandlers},
+		Custom:   []func(*PropRun){c19Balance, c19KeyTable, c19InitHandlers, c19MouseModes},
 		Trusted: []string{"webfiles/tcell.js implements the calls it receives (JavaScript, outside the verifier)",
 			"syscall/js: Value.Int/Bool/String are functions of the value; Call/Set/FuncOf do not touch Go state (assumed contracts in spec/trusted/js.spec)",
 			"sync.Mutex semantics; absence of self-deadlock follows from lock balance on every path",
